@@ -256,7 +256,8 @@ def parse_kani_output(text):
 def check_key(f):
     """Role of a failing check: function + description, no line numbers, no values."""
     func = re.sub(r"::\{closure#\d+\}", "", f["func"])
-    return f"{func}|{f['desc']}"
+    desc = f["desc"].strip('"')
+    return f"{func}|{desc}"
 
 
 def run_harness(h, scratch, tier):
